@@ -10,6 +10,7 @@ import (
 	"path/filepath"
 	"sort"
 	"testing"
+	"time"
 
 	"pgregory.net/rapid"
 	"verif/harness/internal/ev"
@@ -17,7 +18,7 @@ import (
 
 func TestMain(m *testing.M) { ev.Main(m) }
 
-const rule = "case = a history: an initial module example.com/m (dep; mid imports dep; top imports mid and optionally dep; 17 toggles drawn for the initial tree, optionally a staticcheck.conf and non-default flags) followed by <= N actions drawn from {RUN; toggle one of 17 triggers (4 of them flip a fact exported by dep - deprecation of a function / of a method reached through mid only, purity, nilness - without changing dep's API, line numbers or export data; others: padding lines, body-only edit, type error in dep, triggers in mid and in the target file, dot-import file, in-package and external test files, files behind //go:build special and _windows.go); write/remove staticcheck.conf at parent dir | module root | dep | mid | top (checks, initialisms, dot_import_whitelist, http_status_code_whitelist, each absent or from a menu with and without \"inherit\"; 5% invalid TOML); set -go (module, 1.23..1.26) | -tags special | -tests | -checks | GOOS (linux, windows); change the go directive of go.mod; revert tree and/or flags to the state of an earlier run; touch a file (mtime or rewrite, same bytes)}; the first and the last action are RUN. Every RUN executes the real staticcheck binary twice on ./... with -f json: with the persistent STATICCHECK_CACHE of the history and with a cache holding nothing about the module; stdout as a sorted multiset of lines and the exit status must be equal. non-trivial = the history contains a RUN in which the persistent cache served >= 1 package of the module (no analyzer measurement for it in -debug.measure-analyzers) after the cold output had changed between two runs of the history; distinct by hash of the whole history"
+const rule = "case = a history: an initial module example.com/m (dep; mid imports dep; top imports mid and optionally dep; 18 toggles drawn for the initial tree, optionally a staticcheck.conf and non-default flags) followed by <= N actions drawn from {RUN; toggle one of 18 triggers (4 of them flip a fact exported by dep - deprecation of a function / of a method that top reaches through mid only, purity, nilness - without changing dep's API, line numbers or export data; others: padding lines that shift positions, body-only edit, type error in dep, triggers in mid and in the target file, a //lint:ignore directive, a dot-import file, in-package and external test files, files behind //go:build special and _windows.go, two pairs of tag/GOOS-selected files in dep that flip a fact); write/remove staticcheck.conf at parent dir | module root | dep | mid | top (checks, initialisms, dot_import_whitelist, http_status_code_whitelist, each absent or from a menu with and without \"inherit\"; 5% invalid TOML); set -go (module, 1.23..1.26) | -tags special | -tests | -checks | GOOS (linux, windows) | package patterns (./... or subsets, so that dependencies are analysed for facts only) | GOFLAGS=-trimpath; change the go directive of go.mod; move the module directory (second checkout); revert tree and/or flags to the state of an earlier run; touch a file (mtime or rewrite, same bytes)}; the first and the last action are RUN, at least one RUN in between. Every RUN executes the real staticcheck binary twice with -f json: with the persistent STATICCHECK_CACHE of the history and with a cache holding nothing about the module; stdout as a sorted multiset of lines and the exit status must be equal. non-trivial = the history contains a RUN in which the persistent cache served >= 1 package of the module (no analyzer measurement for it in -debug.measure-analyzers) after the cold output had changed between two runs of the history; distinct by hash of the whole history"
 
 func jsonMarshal(v any) ([]byte, error) { return json.Marshal(v) }
 
@@ -30,18 +31,35 @@ func record(h *History, v verdict, js []byte) {
 	ev.Case(ev.Hash(string(js)), v.nontrivial, cl...)
 }
 
+// TestCorpus runs first: the saved histories are the regression cases of every
+// sensitivity mutation and finding; they must not be starved by the soft deadline.
+func TestCorpus(t *testing.T) {
+	// every history costs several staticcheck runs: the files are spread over the shards
+	files, _ := filepath.Glob(filepath.Join(os.Getenv("VERIF_ROOT"), "corpus", "C04", "*.json"))
+	sort.Strings(files)
+	for i, f := range files {
+		if i%ev.NShards() != ev.Shard() {
+			continue
+		}
+		replayFile(t, f, "TestCorpus")
+	}
+}
+
 func TestHistories(t *testing.T) {
 	ev.Rule(rule)
 	ev.Assume("the cold reference run does not start from a literally empty directory but from a copy of a 'std base' cache: the result of linting a different module (example.com/warm, same standard-library imports, same -go and GOOS) with the same binary. Cache keys contain the package path, so the base holds no entry for any package of the module under test; those are always analysed from scratch in the reference run (checked: every module package must appear in the analyzer measurements of the cold run or the run is counted). The persistent cache receives the same base before the first run with a given (-go, GOOS); this is a history in which the user linted another module before")
 	ev.Assume("the Go build cache (GOCACHE) is shared by both runs and is not under test; CGO_ENABLED=0, GOFLAGS=-mod=mod, GOMAXPROCS=4 for every run; GODEBUG and GOCACHEPROG are removed from the environment")
 	ev.Assume("-go stays >= 1.23: with lower values the standard library itself fails to type-check on this toolchain (known finding std-fails-under-low-go-flag of C20; with -go 1.22 it is reflect, slices and go/build/constraint, imported by every test binary, that fail with \"requires go1.23 or later\")")
+	ev.Assume("a history uses either -trimpath or a moved module directory, never both: that combination violates the property on the unchanged tree (finding trimpath-second-checkout, corpus/C04/finding-trimpath-second-checkout.json*); the excluded draws are counted; C04_TRIMPATH_AND_MOVE=1 lifts the exclusion; when the finding is listed as known in known_findings.json (sig trimpath-second-checkout) its exact signature - outputs equal after mapping the file names of one checkout to the other - is counted as KNOWN-FINDING instead of a violation")
+	ev.Assume("the reference (cold) output of a (tree, flags) state that occurred earlier in the same history is reused instead of recomputed (dropped after every touch action); every mismatch is re-examined with a new cold run")
 	ev.Assume("only stdout (the problems) and the exit status are compared; stderr (warnings) differences are counted")
 	ev.Assume("if warm and cold differ, the cold run is repeated with another fresh cache; if the two cold runs differ from each other the case is counted as cold_output_not_deterministic and not judged")
 	maxSteps := ev.EnvInt("C04_STEPS", 6, 10)
 	allowHTTP := ev.EnvInt("C04_HTTP", 0, 1) == 1
+	both := ev.EnvInt("C04_TRIMPATH_AND_MOVE", 0, 0) == 1
 	ev.Extra("max_steps", maxSteps)
 	ev.Check(t, "TestHistories", func(rt *rapid.T) {
-		h := genHistory(rt, maxSteps, allowHTTP)
+		h := genHistory(rt, maxSteps, allowHTTP, both)
 		js, _ := json.Marshal(h)
 		ev.Begin("TestHistories", "json", js)
 		v := evaluate(h, nil)
@@ -51,11 +69,16 @@ func TestHistories(t *testing.T) {
 		}
 		record(h, v, js)
 		if v.msg != "" {
-			// everything after the failing run is irrelevant
-			small := &History{Init: h.Init, Actions: h.Actions[:v.failStep+1]}
+			// everything after the failing run is irrelevant; then a bounded greedy
+			// minimisation (rapid's own shrinking gets only a few of these expensive evaluations)
+			small, msg := minimise(&History{Init: h.Init, Actions: h.Actions[:v.failStep+1]}, v.msg)
 			js2, _ := json.Marshal(small)
-			ev.Begin("TestHistories", "json", js2)
-			ev.Failf(rt, "TestHistories", "%s", v.msg)
+			// rapid keeps shrinking after this; the smallest failing history seen wins
+			if bestJS == nil || len(js2) < len(bestJS) {
+				bestJS, bestMsg = js2, msg
+			}
+			ev.Begin("TestHistories", "json", bestJS)
+			ev.Failf(rt, "TestHistories", "%s", bestMsg)
 		}
 		if v.nontrivial && ev.WantSample() {
 			var acts []string
@@ -66,6 +89,77 @@ func TestHistories(t *testing.T) {
 		}
 	})
 }
+
+// minimise greedily removes actions, initial toggles, configuration files and
+// non-default flags while the history still fails; bounded by evaluations and time.
+func minimise(h *History, msg string) (*History, string) {
+	if minimising {
+		return h, msg // rapid is re-running the shrunk case
+	}
+	minimising = true
+	start := time.Now()
+	evals := 0
+	try := func(c *History) bool {
+		if evals >= 24 || time.Since(start) > 150*time.Second {
+			return false
+		}
+		evals++
+		v := evaluate(c, nil)
+		if v.msg == "" || v.infra != "" {
+			return false
+		}
+		h = &History{Init: c.Init, Actions: c.Actions[:v.failStep+1]}
+		msg = v.msg
+		return true
+	}
+	cp := func() *History {
+		b, _ := json.Marshal(h)
+		var c History
+		json.Unmarshal(b, &c)
+		c.Init = c.Init.clone()
+		return &c
+	}
+	for i := len(h.Actions) - 2; i >= 0; i-- {
+		if i >= len(h.Actions)-1 {
+			continue
+		}
+		c := cp()
+		c.Actions = append(c.Actions[:i], c.Actions[i+1:]...)
+		try(c)
+	}
+	for _, name := range sortedKeys(h.Init.Tree.On) {
+		c := cp()
+		delete(c.Init.Tree.On, name)
+		try(c)
+	}
+	for _, level := range sortedKeys(h.Init.Tree.Conf) {
+		c := cp()
+		delete(c.Init.Tree.Conf, level)
+		try(c)
+	}
+	def := Flags{Go: "module", Tests: true, GOOS: "linux"}
+	if h.Init.Flags != def {
+		c := cp()
+		c.Init.Flags = def
+		if !try(c) {
+			for _, f := range []func(*Flags){func(f *Flags) { f.Go = def.Go }, func(f *Flags) { f.Checks = "" }, func(f *Flags) { f.Pattern = "" }, func(f *Flags) { f.Tags = false }, func(f *Flags) { f.Tests = true }, func(f *Flags) { f.Trimpath = false }} {
+				c := cp()
+				f(&c.Init.Flags)
+				if c.Init.Flags != h.Init.Flags {
+					try(c)
+				}
+			}
+		}
+	}
+	ev.Count("minimisation_evaluations", evals)
+	return h, msg
+}
+
+var (
+	minimising bool
+	bestJS     []byte
+	bestMsg    string
+)
 
 func replayFile(t *testing.T, f, test string) {
 	b, err := os.ReadFile(f)
@@ -87,25 +181,16 @@ func replayFile(t *testing.T, f, test string) {
 	if v.msg != "" {
 		ev.Violate(test, fmt.Sprintf("replay of %s:\n%s", f, v.msg), "json", b)
 		t.Errorf("%s", v.msg)
+	} else if v.known != "" {
+		t.Logf("replay %s: KNOWN-FINDING %s", f, v.known)
 	} else {
 		t.Logf("replay %s: property holds (%d runs)", f, len(v.runs))
 	}
 }
 
-func TestCorpus(t *testing.T) {
-	// every history costs several staticcheck runs: the files are spread over the shards
-	files, _ := filepath.Glob(filepath.Join(os.Getenv("VERIF_ROOT"), "corpus", "C04", "*.json"))
-	sort.Strings(files)
-	for i, f := range files {
-		if i%ev.NShards() != ev.Shard() {
-			continue
-		}
-		replayFile(t, f, "TestCorpus")
-	}
-}
-
 func TestReplay(t *testing.T) {
 	if f := ev.ReplayFile(); f != "" {
+		defer dropPrivateStd() // replay mode runs this test alone
 		replayFile(t, f, "TestReplay")
 	}
 }
@@ -117,7 +202,7 @@ func TestDump(t *testing.T) {
 	if dir == "" {
 		return
 	}
-	h := rapid.Custom(func(rt *rapid.T) *History { return genHistory(rt, 10, false) }).Example(int(ev.Seed()))
+	h := rapid.Custom(func(rt *rapid.T) *History { return genHistory(rt, 10, false, false) }).Example(int(ev.Seed()))
 	dk := &disk{root: dir, files: map[string]string{}}
 	if err := dk.sync(h.Init.Tree.render()); err != nil {
 		t.Fatal(err)
